@@ -63,7 +63,7 @@ func c32Chains(run *ev.Run) (c *chain.Chain, mcs map[int]*chain.Chain, batches [
 	c = chain.Provider().(*chain.Chain)
 	mcs = map[int]*chain.Chain{}
 	batches = []int{1, 2, run.Pick(3, 4)}
-	for _, b := range batches {
+	for _, b := range append(append([]int{}, batches...), 8) { // 8: keeps every identity-sum case in one batch
 		viper.Set("server_chain.block.validation.batch_size", b)
 		mcs[b] = chain.Provider().(*chain.Chain)
 	}
@@ -115,6 +115,26 @@ func c32Tickets(run *ev.Run, w *c32world, c *chain.Chain) {
 						map[string]any{"site": "chain.VerifyTickets", "block_hash": blockHash, "tickets": bvts, "transformation": x})
 				}
 			}
+		}
+	}
+	// identity-sum prefixes (tickets are aggregated as one batch)
+	for _, ic := range identityCases(func(k, m int) string { return w.sigOf[k][m] }, true) {
+		n := len(ic.ki)
+		allValid := true
+		bvts := make([]*block.VerificationTicket, n)
+		for i := 0; i < n; i++ {
+			if !w.vcache.ok(w.keys[ic.ki[i]].Pub, ic.sigs[i], blockHash) {
+				allValid = false
+			}
+			bvts[i] = &block.VerificationTicket{VerifierID: minerIDs[ic.ki[i]], Signature: ic.sigs[i]}
+		}
+		err := c.VerifyTickets(ctx, blockHash, bvts, 1)
+		run.Add(0, 0, 1)
+		run.Outcome(fmt.Sprintf("VerifyTickets/identity-sum-prefix:%s/valid=%v/accept=%v", ic.class, allValid, err == nil))
+		if (err == nil) != allValid {
+			run.Violation("C32:VerifyTickets:identity-sum-prefix:"+ic.class,
+				fmt.Sprintf("VerifyTickets returns %v, all tickets individually valid = %v: %s", err, allValid, ic.desc),
+				map[string]any{"site": "chain.VerifyTickets", "block_hash": blockHash, "tickets": bvts, "layout": ic.desc})
 		}
 	}
 
@@ -221,6 +241,48 @@ func c32Txns(run *ev.Run, w *c32world, mcs map[int]*chain.Chain, batches []int) 
 								map[string]any{"site": "miner.ValidateTransactions", "batch_size": batch, "clients": kv, "payloads": mv, "signatures": sigs, "txn_hashes": hashT, "transformation": x})
 						}
 					}
+				}
+			}
+		}
+		// identity-sum prefixes; additionally with a batch size that keeps every case in one batch
+		idBatches := []int{batch}
+		if batch == batches[len(batches)-1] {
+			idBatches = append(idBatches, 8)
+		}
+		for _, ib := range idBatches {
+			imc := mc
+			if ib != batch {
+				miner.SetupMinerChain(mcs[ib])
+				imc = miner.GetMinerChain()
+				if imc.ValidationBatchSize() != ib {
+					ev.Fatal("batch size %d not applied", ib)
+				}
+			}
+			for _, ic := range identityCases(func(k, m int) string { return sigT[k][k][m] }, false) {
+				n := len(ic.ki)
+				b := block.Provider().(*block.Block)
+				b.Round = 1
+				b.CreationDate = now
+				allValid := true
+				for i := 0; i < n; i++ {
+					t := mkTxn(ic.ki[i], ic.mi[i])
+					t.Hash = hashT[ic.ki[i]][ic.mi[i]]
+					t.Signature = ic.sigs[i]
+					if err := t.ComputeProperties(); err != nil {
+						ev.Fatal("txn ComputeProperties: %v", err)
+					}
+					if !tcache.get(t.PublicKey+"|"+t.Signature+"|"+t.Hash, func() bool { return t.VerifySignature(ctx) == nil }) {
+						allValid = false
+					}
+					b.Txns = append(b.Txns, t)
+				}
+				err := imc.ValidateTransactions(ctx, b)
+				run.Add(0, 0, 1)
+				run.Outcome(fmt.Sprintf("ValidateTransactions/identity-sum-prefix:%s/valid=%v/accept=%v", ic.class, allValid, err == nil))
+				if (err == nil) != allValid {
+					run.Violation("C32:ValidateTransactions:identity-sum-prefix:"+ic.class,
+						fmt.Sprintf("ValidateTransactions returns %v, all transactions individually valid = %v: %s, batch=%d", err, allValid, ic.desc, ib),
+						map[string]any{"site": "miner.ValidateTransactions", "batch_size": ib, "clients": ic.ki, "payloads": ic.mi, "signatures": ic.sigs, "layout": ic.desc})
 				}
 			}
 		}
